@@ -82,7 +82,8 @@ def shapeEarlyReturn (r : Round) : Bool :=
     r.peers.any (fun p => r.responding p && r.phase1Bad p i) &&
     r.peers.any (fun q => r.scLiarAt q i))
 
-/-- nobody advertises the all-zero filter hash (the "unset" sentinel of the mismatch test) -/
+/-- nobody advertises the all-zero filter hash (it was the "unset" sentinel of the mismatch test until
+finding `zero-hash-sentinel` was repaired; no theorem needs this any more) -/
 def noZero (r : Round) : Bool :=
   r.peers.all (fun p => (List.range r.n).all (fun i => r.hashAt p i != some 0))
 
